@@ -7,8 +7,9 @@ Lean cannot model GCC's constant evaluator (DESIGN §6).  What is proved here:
    (`gen/dispatch.py`): every function with two code paths is bound to ONE specification — each builtin it calls is
    one that is assumed to implement that specification and each callee on the other path is tied to that same
    specification (`dispatch_consistent`); the functions the property names are all present
-   (`dispatch_covers_anchors`); the only exactly-specified function whose two *simultaneously live* paths are
-   known to differ is `fma` (`dispatch_divergent_is_fma`); every callee marked `proved` names a theorem below
+   (`dispatch_covers_anchors`); the exactly-specified functions whose two *simultaneously live* paths are known to
+   differ are `fma` (finding of this property) and `fmod`, `remainder` (gcem::fmod, finding of property C16) and no
+   other (`dispatch_divergent_are_known`); every callee marked `proved` names a theorem below
    (`proved_callees_have_theorems`);
 2. for each such pair, for ALL inputs: the model of tetl's own code on one path returns — without an out-of-bounds
    read, overflow or other undefined behaviour (`= .ok …`) — exactly the value of the specification of the builtin
@@ -36,8 +37,12 @@ theorem dispatch_consistent : ∀ e ∈ dispatch, entryOk e = true := by decide
 theorem dispatch_covers_anchors : ∀ n ∈ expectedFns, n ∈ dispatch.map (·.fn) := by decide
 
 /-- Among the entries whose two paths are live in the same program (`is_constant_evaluated()` switch) and whose
-    result is exactly specified, the only one with a callee known to differ from the specification is `fma`. -/
-theorem dispatch_divergent_is_fma : divergentIce dispatch = ["fma"] := by decide
+    result is exactly specified, the ones with a callee known to differ from the specification are exactly
+    `fma` (two roundings, F-c13-fma-constexpr-double-rounding) and — since the run-time paths of `fmod` and
+    `remainder` call the libm builtins (dda5d6c, f1c8460) — `fmod` and `remainder`, whose constant-evaluated path is
+    gcem's `x - trunc(x / y) * y` (F-C16-gcem-fmod-constexpr, recorded and exercised by property C16).
+    (Until the C16 fixes this list was `["fma"]`: fmod and remainder ran gcem on both paths.) -/
+theorem dispatch_divergent_are_known : divergentIce dispatch = ["fma", "fmod", "remainder"] := by decide
 
 /-- Every callee marked `proved` in `Spec.calleeTable` names its theorem in `Spec.proofOf`. -/
 theorem proved_callees_have_theorems : provedHaveProofs = true := by decide
@@ -173,6 +178,18 @@ theorem copysign_spec (f : Fmt) (x y : Nat) (hx : x < 2 ^ f.width) (hy : y < 2 ^
     rw [(sign_withSign f (f.sign y) (f.absBits x) hsy habs).2]; exact hn
 example : Model.copysignFallback f32 0 0xbf800000 = FSpec.copysign f32 0 0xbf800000 :=
   (copysign_spec f32 _ _ (by decide) (by decide)).1 (by decide)
+
+/-- signbit: `detail::signbit_fallback` (the alternative where `__builtin_signbit` is missing; 4- and 8-byte
+    formats) shifts the sign bit of the representation down: the specification of the builtin, for ±0 and NaNs too -/
+theorem signbit_paths (f : Fmt) (b : Nat) (hb : b < 2 ^ f.width) : Model.signbitFallback f b = FSpec.signbit f b := by
+  have hW := signW_pos f
+  rw [two_signW] at hb
+  have hq : b / f.signW < 2 := (Nat.div_lt_iff_lt_mul hW).2 (by omega)
+  unfold Model.signbitFallback FSpec.signbit Fmt.sign
+  generalize b / f.signW = q at *
+  have : q = 0 ∨ q = 1 := by omega
+  rcases this with rfl | rfl <;> decide
+example : Model.signbitFallback f32 0xffc00000 = FSpec.signbit f32 0xffc00000 := signbit_paths f32 _ (by decide)
 
 /-- signbit (a builtin on both paths since the fix): the specification is the sign bit, and negation flips it —
     for zeros and NaNs too -/
